@@ -1119,7 +1119,23 @@ impl<'t, 'a, 'g> Gen<'t, 'a, 'g> {
         let decl = format!("{}function* {}() {{\n{}\n{}}}", ind(i), name, body.join("\n"), ind(i));
         let id = self.trace_id;
         self.trace_id += 1;
-        let use_ = match self.tape.below(6) {
+        let use_ = match self.tape.below(9) {
+            6 => {
+                self.tag("gen:abandon-named-iterator");
+                format!("{ind}const it{n} = {n}(); __t({id}, it{n}.next());", ind = ind(i), n = name, id = id)
+            }
+            7 => {
+                self.tag("gen:abandon-after-two");
+                format!("{ind}const it{n} = {n}(); __t({id}, [it{n}.next(), it{n}.next()]);", ind = ind(i), n = name, id = id)
+            }
+            8 => {
+                self.tag("gen:method-this-after-yield");
+                // the receiver is reachable only through the suspended generator object
+                format!(
+                    "{ind}class K{n} {{ constructor(t) {{ this.tag = t; this.items = [1, 2, 3]; }} *walk() {{ for (const x of this.items) {{ const pad = [x, {{v: x}}]; yield this.tag + x + pad.length; }} return this.tag; }} }}\n{ind}const mk{n} = () => new K{n}(\"k\").walk();\n{ind}{{ const w = mk{n}(); const first = w.next(); const junk = [1, 2, 3].map((q) => ({{q}})); __t({id}, [first, w.next(), junk.length, [...w], [...{n}()]]); }}",
+                    ind = ind(i), n = name, id = id
+                )
+            }
             0 => {
                 self.tag("gen:spread");
                 format!("{}__t({}, [...{}()]);", ind(i), id, name)
